@@ -89,3 +89,18 @@ void PLSYPredictor(matrix *tscore, PLSMODEL *model, size_t nlv, matrix *y)
   vc_yp_calls = k + 1;
 }
 #endif
+
+#ifdef VC_STUB_SCOREPRED
+/* PLSScorePredictor by contract: xscores becomes objects x nlv (values arbitrary) */
+size_t vc_sp_calls, vc_sp_nlv;
+void PLSScorePredictor(matrix *mx, PLSMODEL *model, size_t nlv, matrix *xscores)
+{
+  (void)model;
+  vc_sp_calls++;
+  vc_sp_nlv = nlv;
+  ResizeMatrix(xscores, mx->row, nlv);
+  for(size_t i = 0; i < xscores->row; i++)
+    for(size_t j = 0; j < xscores->col; j++)
+      xscores->data[i][j] = nondet_vc_f64();
+}
+#endif
